@@ -159,6 +159,59 @@ SEEDS = {
         needs="a drive phase of pi (or a multiple) on every atom",
         detected_by={"C29": "sv_offset_n1: H(phi+c) R_c v = R_c H(phi) v", "C06": "ham_mul_n1_phase: H*v = H_dense v"},
     ),
+    "C07": dict(
+        property="C07",
+        change="krylov_exp_impl: fast path `exp(T[0,0]) * v` for a happy breakdown at the first iteration; v was already normalised in place, so the |v| factor is lost while converged=True is reported",
+        needs="v spans a one-dimensional invariant subspace (eigenvector, operator ~ identity, Omega=0 on a basis state) and |v| != 1",
+        detected_by={"C07": "honesty_dim2_k1_lanczos / honesty_dim3_k2_lanczos: returned vector = |v| * sum_k exp(T)[k,0] q_k (happy at iteration 0)"},
+        strengthened="first detection was accidental (IndexError in the harness: no matrix_exp call to pair the result with). The exponential stub now also stands in for a scalar torch.exp of a 1x1 projected matrix, so the returned-vector clause applies and fails semantically",
+    ),
+    "C08": dict(
+        property="C08",
+        change="_lowest_eigenvector_krylov_method keeps the lowest-residual Ritz vector but reports the minimum Ritz value of the cycle: energy and state come from different iterations",
+        needs="budget exhausted without convergence and a non-monotone residual inside the last cycle",
+        detected_by={"C08": "bookkeeping_k2_restarts0: returned energy and returned vector are the Ritz pair of one and the same projected problem (added)"},
+        strengthened="MISSED at first: the check only demanded that the energy be the lowest Ritz value of *some* projected problem. Added the pairing clause (energy and normalised Ritz vector from the same eigh call) with a canary",
+    ),
+    "C09": dict(
+        property="C09",
+        change="DMRG convergence_check drops the abs(): any sweep whose energy went down by any amount (or is below a stale previous energy) counts as converged",
+        needs="a time step starting from a product state after a step that left a higher stale energy (delay then drive), >= 6 atoms for a visible error",
+        detected_by={"C09": "sweeps_n2_upto3_max2000: the time step does not complete before the energy has converged"},
+    ),
+    "C17": dict(
+        property="C17",
+        change="do_random_quantum_jump builds the candidate list operator-major while the weights stay qubit-major",
+        needs=">= 2 jump operators with different weights (mixed noise types)",
+        detected_by={"C17": "jump_concrete_state_n3_ops2_d2: candidate #j is (atom q, operator k) / weight #j = <psi|(L^dag L)_q|psi>"},
+    ),
+    "C30": dict(
+        property="C30",
+        change="EvolveStateVector.backward guards the grad_phis block with needs_input_grad[2] (the detunings' flag)",
+        needs="phis require a gradient while deltas do not",
+        detected_by={"C30": "backward_assembly_n1 (added): a gradient is returned for `phi` whenever it is requested"},
+        strengthened="MISSED at first: C30 only decided the dH/dtheta operators. Added backward_assembly: the real backward with double_krylov/krylov_exp as stubs over all 32 needs_input_grad combinations",
+    ),
+    "C32": dict(
+        property="C32",
+        change="minimize_bandwidth_impl rebuilds the accumulated permutation from the stale initial_perm after each accepted round",
+        needs="a start that goes through >= 2 accepted improving rounds",
+        detected_by={"C32": "impl_n3_init01: the loop's matrix = original permuted by the returned permutation"},
+    ),
+    "C33": dict(
+        property="C33",
+        change="MPSConfig applies the Krylov tolerance floor only when solver == TDVP",
+        needs="solver=DMRG and precision*extra_krylov_tolerance < 1e-12",
+        detected_by={"C33": "krylov_floor_and_autosave_dt: effective Krylov tolerance precision*extra' >= 1e-12 (solver fork added)"},
+        strengthened="MISSED at first: the floor was only exercised with the default solver. The configuration case now forks over the solver (default, 'tdvp', 'dmrg', enum forms) and also records the tolerance that reaches krylov_energy_minimization through minimize_energy_pair",
+    ),
+    "C34": dict(
+        property="C34",
+        change="get_sequences yields a trajectory group once instead of `reps` times when the noise model has Lindblad noise",
+        needs="n_trajectories > 1, a Lindbladian channel, a group with reps > 1",
+        detected_by={"C34": "reps_expansion_samples1: number of SequenceData = sum of reps (Lindblad fork added)"},
+        strengthened="first detection was accidental (AttributeError: the stub PulserData lacked has_lindblad_noise). The stub now carries every attribute the constructor sets and the case forks over Lindblad noise, so the counting clause fails",
+    ),
     "C25": dict(
         property="C25",
         change="bad-atom mask mapped to the sites with the inverse permutation",
